@@ -70,12 +70,13 @@ func (f *filerConn) lookupEntry(path string) (*filer_pb.Entry, error) {
 }
 
 type resolved struct {
-	Data    []byte
-	Size    uint64 // filer.FileSize(entry) (max of chunk extent and the size attribute), or len(Content)
-	Views   int
-	Chunks  int
-	Inline  bool
-	HasHole bool
+	Data      []byte
+	Size      uint64 // filer.FileSize(entry) (max of chunk extent and the size attribute), or len(Content)
+	Views     int
+	Chunks    int
+	Inline    bool
+	HasHole   bool
+	Oversized int // chunk views whose blob is longer than the chunk record says
 }
 
 // resolve turns a stored entry into bytes: inline content, or the last-writer-wins
@@ -121,13 +122,20 @@ func (f *filerConn) resolve(entry *filer_pb.Entry) (*resolved, error) {
 		if rerr != nil {
 			return nil, fmt.Errorf("read chunk %s: %v", v.FileId, rerr)
 		}
-		if uint64(b.Len()) != v.Size {
-			return nil, fmt.Errorf("chunk view %s [%d,+%d) returned %d bytes", v.FileId, v.Offset, v.Size, b.Len())
+		data := b.Bytes()
+		if v.IsFullChunk() && uint64(len(data)) > v.Size {
+			// a chunk record may declare fewer bytes than the blob holds (the mount shortens
+			// chunk sizes on truncate): the record means the first Size bytes of the blob
+			data = data[:v.Size]
+			res.Oversized++
+		}
+		if uint64(len(data)) != v.Size {
+			return nil, fmt.Errorf("chunk view %s [%d,+%d) returned %d bytes", v.FileId, v.Offset, v.Size, len(data))
 		}
 		if v.LogicOffset < 0 || uint64(v.LogicOffset)+v.Size > size {
 			return nil, fmt.Errorf("chunk view %s at %d+%d outside the entry size %d", v.FileId, v.LogicOffset, v.Size, size)
 		}
-		copy(buf[v.LogicOffset:], b.Bytes())
+		copy(buf[v.LogicOffset:], data)
 		covered += int64(v.Size)
 	}
 	res.HasHole = uint64(covered) < size
